@@ -624,10 +624,12 @@ OnGc(m, o) ==
                            THEN V(a1, "C15", "a one-off reactor was despawned before any of its triggers fired") ELSE a1
                  IN [a2 EXCEPT !.alive = @ \ {x}, !.doomed = @ \ {x}]
         m1 == FoldSeq(step, m, o.d)
-        m2 == Chk(m1, m1.doomed \cap m1.alive = {}, "C07", "garbage collection missed a reactor whose last trigger is gone")
+        \* what was already doomed when the collection started must be gone now; what the collection itself doomed (by
+        \* despawning an entity that carried the last handle / signal) may be collected now or by the next collection
+        m2 == Chk(m1, (m.doomed \cap m.alive) \cap m1.alive = {}, "C07", "garbage collection missed a reactor whose last trigger is gone")
         m3 == Chk(m2, o.closed = 1, "C18", "garbage collection did not complete")
-        m4 == Chk(m3, m3.doomedE \cap m3.aliveE = {}, "C08", "garbage collection missed an entity whose last signal was released")
-    IN [m4 EXCEPT !.doomed = {}, !.doomedE = {}]
+        m4 == Chk(m3, (m.doomedE \cap m.aliveE) \cap m3.aliveE = {}, "C08", "garbage collection missed an entity whose last signal was released")
+    IN [m4 EXCEPT !.doomed = @ \cap m4.alive, !.doomedE = @ \cap m4.aliveE]
 
 OnPoll(m, o) ==
     Push([m EXCEPT !.pendRem = [ i \in DOMAIN @ |-> [@[i] EXCEPT !.seen = TRUE] ],
